@@ -22,6 +22,9 @@ type C20Op struct {
 	// Mgr: the call is made the way the server makes it, through the allocation manager's
 	// CreateAllocation (which passes the requested port on to the generator)
 	Mgr bool `json:"mgr,omitempty"`
+	// OtherFam: this allocation is of the other address family than the generator's addresses
+	// (one generator serves a listener's IPv4 and IPv6 allocations alike)
+	OtherFam bool `json:"other_family,omitempty"`
 }
 
 // nullPacketConn stands for the server's listening socket (nothing is relayed in this stage).
@@ -92,6 +95,7 @@ func (r *scriptedRand) GenerateString(n int, _ string) string { return "xxxxxxxx
 var c20Known func(sig string) bool
 
 type liveRes struct {
+	fam6 bool
 	kind string
 	port int
 	sock *sim.UDPSock
@@ -230,7 +234,12 @@ func runC20Inner(c *C20Case) (string, string) { //nolint:cyclop,gocyclo,maintidx
 		var adv net.Addr
 		var err error
 		var res *liveRes
-		conf := turn.AllocateListenerConfig{Network: netU, UserID: "u", Realm: "r", RequestedPort: op.Req}
+		opU, opT, op6 := netU, netT, c.V6
+		if op.OtherFam && c.Gen != "none" {
+			op6 = !c.V6
+			opU, opT = map[bool]string{true: "udp6", false: "udp4"}[op6], map[bool]string{true: "tcp6", false: "tcp4"}[op6]
+		}
+		conf := turn.AllocateListenerConfig{Network: opU, UserID: "u", Realm: "r", RequestedPort: op.Req}
 		if op.Mgr {
 			if mgr == nil {
 				var merr error
@@ -248,7 +257,7 @@ func runC20Inner(c *C20Case) (string, string) { //nolint:cyclop,gocyclo,maintidx
 			if op.Kind == "tcp" {
 				pr = proto.ProtoTCP
 			}
-			if c.V6 {
+			if op6 {
 				fam = proto.RequestedFamilyIPv6
 			}
 			var a *allocation.Allocation
@@ -288,7 +297,7 @@ func runC20Inner(c *C20Case) (string, string) { //nolint:cyclop,gocyclo,maintidx
 				res = &liveRes{kind: "udp", port: s.Local().Port, sock: s, cl: s}
 			}
 		} else {
-			conf.Network = netT
+			conf.Network = opT
 			var ln net.Listener
 			ln, adv, err = gen.AllocateListener(conf)
 			if err == nil {
@@ -321,7 +330,7 @@ func runC20Inner(c *C20Case) (string, string) { //nolint:cyclop,gocyclo,maintidx
 		}
 		if err != nil {
 			// failing is fine, but it must fail cleanly: nothing left open
-			if op.Req != 0 && !busy(op.Kind, op.Req) {
+			if op.Req != 0 && !busy(op.Kind, op.Req) && op6 == c.V6 {
 				return "refused-free-port", fmt.Sprintf("%s: requested port %d is free but the call failed: %v", ctx, op.Req, err)
 			}
 			for _, s := range n.Socks()[socksBefore:] {
@@ -341,8 +350,23 @@ func runC20Inner(c *C20Case) (string, string) { //nolint:cyclop,gocyclo,maintidx
 		if res.sock != nil && (res.sock.IsClosed() || res.sock.ID <= 0) || res.lis != nil && res.lis.IsClosed() {
 			return "returned-closed", ctx + ": returned a closed socket/listener"
 		}
+		res.fam6 = op6
 		shared := false
 		for _, l := range live {
+			if l.kind == res.kind && l.port == res.port && l.fam6 != res.fam6 {
+				// Address "::" serves both families: [::]:P and 0.0.0.0:P are two sockets, advertised
+				// as one transport address RelayAddress:P (known finding, see DESIGN.md)
+				if !(c.V6 && c.Wild) {
+					return "port-shared", fmt.Sprintf("%s: port %d handed out for %s while a live allocation of the other family holds it: both are advertised as %v:%d", ctx, res.port, conf.Network, relayIP, res.port)
+				}
+				if c20Known != nil && c20Known("C20.ipv6-wildcard-address-one-port-both-families") {
+					shared = true
+
+					break
+				}
+
+				return "ipv6-wildcard-address-one-port-both-families", fmt.Sprintf("%s: port %d handed out for %s while a live allocation of the other family holds it: both are advertised as %v:%d", ctx, res.port, conf.Network, relayIP, res.port)
+			}
 			if l.kind == res.kind && l.port == res.port {
 				if res.lis != nil && res.lis.Reuse && l.lis != nil && l.lis.Reuse {
 					// the bundled generators bind TCP relay listeners with SO_REUSEPORT, and the
@@ -364,7 +388,7 @@ func runC20Inner(c *C20Case) (string, string) { //nolint:cyclop,gocyclo,maintidx
 		}
 		_ = shared
 		for _, p := range c.Pre {
-			if p == res.port {
+			if p == res.port && op6 == c.V6 { // (the ports in use are in use in the generator's own family)
 				return "port-in-use", fmt.Sprintf("%s: handed out port %d which is in use", ctx, p)
 			}
 		}
@@ -470,6 +494,15 @@ func genC20(rt *rapid.T) *C20Case {
 				op.Req = rapid.IntRange(c.MinPort, c.MaxPort).Draw(rt, "req")
 			} else {
 				op.Req = rapid.IntRange(1, 65535).Draw(rt, "req")
+			}
+		}
+		if (op.Kind == "udp" || op.Kind == "tcp") && c.Gen != "none" && rapid.IntRange(0, 3).Draw(rt, "otherFam") == 0 {
+			op.OtherFam = true
+			if len(c.Ops) > 0 && rapid.IntRange(0, 1).Draw(rt, "otherFamSamePort") == 0 {
+				// the port an earlier call asked for
+				if prev := c.Ops[rapid.IntRange(0, len(c.Ops)-1).Draw(rt, "otherFamPrev")]; prev.Req != 0 {
+					op.Req = prev.Req
+				}
 			}
 		}
 		c.Ops = append(c.Ops, op)
